@@ -6,7 +6,7 @@
 (*   "pairs"   every AND / OR of two leaves of the pair leaf set              (depth 2)       *)
 (*   "sample"  depth 2 and 3 shapes over the full leaf set, leaf indexes from Sample          *)
 (* and prints each case with MustRoute (the P-level oracle), the I-level prediction of the   *)
-(* planner as written (pruned) and per leaf the leaf's own MustRoute (for signatures).       *)
+(* planner as it is now (pruned) and per leaf the leaf's own MustRoute (for signatures).       *)
 EXTENDS Routing, Json
 
 CONSTANTS Rules,     \* sequence of rule instances
@@ -107,17 +107,18 @@ TypeOK == /\ ri \in DOMAIN Rules
           /\ IsCase => Len(ix) = Arity(sh)
 
 (* ---- design-level properties (checked by TLC on every enumerated case) ---- *)
-(* the pruning algebra with the two repairs never drops a must-table *)
+(* the pruning algebra of the code as it is now (with the two repairs) never drops a must-table *)
 RepairedPruneSound == IsCase => PruneSound(R, Tree, TRUE)
-(* the pruning algebra as written; expected to FAIL for range and calendar rules (candidates) *)
-CodePruneSound == IsCase => PruneSound(R, Tree, FALSE)
+CodePruneSound == RepairedPruneSound
+(* the pruning algebra before the repairs; FAILS for range and calendar rules (what the repairs fixed) *)
+OldPruneSound == IsCase => PruneSound(R, Tree, FALSE)
 (* the planner never invents tables, and must-tables are tables *)
-RoutedWithinTables == IsCase => /\ RoutedI(R, Tree, FALSE).set \subseteq Tables(R)
+RoutedWithinTables == IsCase => /\ RoutedI(R, Tree, TRUE).set \subseteq Tables(R)
                                     /\ MustRoute(R, Tree) \subseteq Tables(R)
 (* a point condition is routed exactly to the key's own table *)
 PointQueryIsPlace ==
   (IsCase /\ sh = "L" /\ Tree.k = "cmp" /\ Tree.col = "k" /\ Tree.op = "=" /\ Tree.w = "lit" /\ Tree.a >= 0) =>
-     LET x == RoutedI(R, Tree, FALSE) IN
+     LET x == RoutedI(R, Tree, TRUE) IN
      IF Place(R, Tree.a) # NoTable THEN ~x.rej /\ x.set = {Place(R, Tree.a)} /\ MustRoute(R, Tree) = {Place(R, Tree.a)}
      ELSE MustRoute(R, Tree) = {}
 (* every table of every rule instance holds at least one universe key (no vacuous MustRoute) *)
@@ -129,7 +130,7 @@ RuleRec == RuleDesc(R)
 CondRec ==
   LET t == Tree
       lv == LeavesOf(t)
-      p == RoutedI(R, t, FALSE)
+      p == RoutedI(R, t, TRUE)
   IN [kind |-> "cond", rule |-> R.id, shape |-> sh, tree |-> t,
       must |-> MustRoute(R, t),
       pruned |-> p,
